@@ -64,6 +64,11 @@ def scope_bindings(tier):
     cans = [("impl", "can", t, n, ((("id", i),) if i is not None else ()), ()) for t in ("A", "B") for n in (None, "R") for i in (None, 0, 1, 2047)]
     for il in lists_upto(cans, 2):
         cases.append(("parserlike", BIND_STRUCTS[:2] + defaults[:2] + list(il)))
+    # the same frame id on the same bus, on two buses, on a named and on the unnamed bus ('default' is what the DBC
+    # writer calls a binding without bus): the statement speaks of the frame id alone
+    bused = [("impl", "can", t, n, (("id", i),) + ((("bus", b),) if b is not None else ()), ()) for t in ("A", "B") for n in (None, "R") for i in (0, 1) for b in (None, "b1", "b2", "default")]
+    for il in lists_upto(bused, 2):
+        cases.append(("buses", BIND_STRUCTS[:2] + list(il)))
     return cases
 
 
